@@ -97,6 +97,14 @@ def run_cli(case, watchdog=60.0):
         def load_fixtures(self):
             return []
 
+        def build_report_info(self):
+            # the project's own information lines (a name the tests may publish again through `lcc.add_report_info`)
+            base = LP.Project.build_report_info(self)
+            return list(base) + [tuple(x) for x in case.get("project_info") or []]
+
+        def build_report_title(self):
+            return case.get("title") or LP.Project.build_report_title(self)
+
     argv = ["--report-dir", os.path.join(top, "report"), "--threads", str(case["spec"]["nb_threads"])]
     if case.get("backends"):
         # the real `--reporting` option (fixed list form): the file backends in this order, the observer last
@@ -154,6 +162,12 @@ def run_cli(case, watchdog=60.0):
         shutil.rmtree(top, ignore_errors=True)
 
 
+def _all_suites(suites):
+    for su in suites:
+        yield su
+        yield from _all_suites(su["subs"])
+
+
 def _spec_one_suite(tests):
     return {"suites": [{"name": "top0", "tests": tests, "subs": [], "setup": None, "teardown": None}], "nb_threads": 1}
 
@@ -179,6 +193,12 @@ class Cli(C.Stream):
                                   {"name": "t1", "acts": [["log", "info", "m"]], "mode": "run"}]),
          "cli": "at_each_log", "env": None, "variant": 0, "texts": "plain", "backends": backends}
         for backends in (["json", "junit"], ["junit", "xml", "json"])
+    ] + [
+        # the project publishes `target`; the first test publishes it again with another value, the second once more (saves in between)
+        {"spec": dict(_spec_one_suite([{"name": "t0", "acts": [["info", "target", "alpha"], ["log", "info", "m"]], "mode": "run"},
+                                       {"name": "t1", "acts": [["info", "target", "beta"], ["log", "info", "m"]], "mode": "run"}]), has_info=True),
+         "cli": "at_each_test", "env": None, "variant": 0, "texts": "plain", "backends": ["json", "xml"],
+         "project_info": [["target", "default"]], "title": "Campaign 1"},
     ]
 
     def setup(self, ctx):
@@ -199,7 +219,12 @@ class Cli(C.Stream):
             cli, env = None, pick()
         else:
             cli, env = None, None
-        return {"spec": spec, "cli": cli, "env": env, "variant": rng.randint(0, 3), "texts": texts, "backends": c10.gen_backends(rng)}
+        case = {"spec": spec, "cli": cli, "env": env, "variant": rng.randint(0, 3), "texts": texts, "backends": c10.gen_backends(rng)}
+        if rng.random() < 0.4:
+            case["project_info"] = [[rng.choice(c10.INFO_NAMES), "p%d" % rng.randint(0, 9)] for _ in range(rng.choice([1, 1, 2]))]
+            if rng.random() < 0.5:
+                case["title"] = "Campaign %d" % rng.randint(0, 9)
+        return case
 
     def impl(self, case):
         return run_cli(case)
@@ -269,6 +294,14 @@ class Cli(C.Stream):
         f.append("used=" + str(obs["strategy"] if isinstance(obs["strategy"], str) else obs["strategy"].get("k")))
         if case.get("backends"):
             f.append("reporting=" + "+".join(case["backends"]))
+        if case.get("project_info"):
+            f.append("project-build_report_info")
+        if case["spec"].get("has_info"):
+            f.append("tests-call-add_report_info")
+            pnames = {n for n, _ in case.get("project_info") or []}
+            tnames = {a[1] for su in _all_suites(case["spec"]["suites"]) for t in su["tests"] for a in t["acts"] if a[0] == "info"}
+            if pnames & tnames:
+                f.append("test-republishes-a-name-of-the-project-info")
         if obs["events"]:
             f.append("threads=%d" % obs["nb_threads"])
             n = len(obs["sessions"][0]["copies"])
@@ -281,6 +314,8 @@ class Cli(C.Stream):
             yield dict(case, spec=c["spec"])
         if case["variant"]:
             yield dict(case, variant=0)
+        if case.get("project_info"):
+            yield {k: v for k, v in case.items() if k not in ("project_info", "title")}
         b = case.get("backends") or []
         for i in range(len(b)):
             if len(b) > 1:
